@@ -4,6 +4,7 @@
 //!   C <locale> <c|o> <categories()>                ICU4X PluralRules::categories
 //!   T <locale> <c|o> <category per integer>|<category per decimal>     ICU4X category table (the oracle)
 //!   P <locale> <c|o> <td_plural!/td_plural_ordinal! result per integer>|<partial-arms variant per integer>
+//!   F <locale> <ref key> <plural key> <count> <td_string!(locale, ref key)>: `$t(plural key, {"count": N})`, selected at parse time
 //!   S <locale> <key> <td_string! text per integer, U+001F separated>
 //!   H <locale> <key> <td!(..).to_html() per integer (first 41 integers), U+001F separated>
 //!   O <locale> <key> <td_string! with PluralOperands parsed from the decimal strings>
@@ -86,6 +87,10 @@ pub fn run() {
                 format!("{}|{}", p1.join(","), p2.join(","))
             });
             writeln!(o, "P {name} {tag} {}", r.unwrap_or_else(|_| "PANIC".into())).unwrap();
+        }
+        for (rkey, pk, n, f) in REFS {
+            let r = std::panic::catch_unwind(|| f(*loc));
+            writeln!(o, "F {name} {rkey} {pk} {n} {}", r.unwrap_or_else(|_| "PANIC".into())).unwrap();
         }
         for (key, _kind, fs, fh, fo) in KEYS {
             let r = std::panic::catch_unwind(|| ns.iter().map(|n| fs(*loc, *n)).collect::<Vec<_>>().join("\u{1f}"));
